@@ -61,8 +61,8 @@ def same_value(a, b):
 
 def c01(kind, version, routes, raw, obs, info=None):
     bad = []
-    if not handler_returns_dataclass(routes):
-        return bad
+    if not handler_returns_dataclass(routes) or (info or {}).get("send_ok") is False:
+        return bad              # outside the property's hypotheses
     esc = [e for e in obs if e[0] == "escape"]
     if esc:
         bad.append(("escape:%s:%s" % (esc[0][1], kind), "processing the frame raised %s: %s" % (esc[0][1], esc[0][2])))
@@ -87,4 +87,153 @@ def c01(kind, version, routes, raw, obs, info=None):
         bad.append(("reply-shape:" + kind, "the reply %r is neither a CALLRESULT nor a CALLERROR" % (w[0][1][:120],)))
     elif jkey(fr[1]) != jkey(call[0]) and not (isinstance(call[0], float) and call[0] != call[0]):
         bad.append(("reply-id:" + kind, "the reply carries id %r, the CALL had %r" % (fr[1], call[0])))
+    return bad
+
+
+def _route_for(routes, action):
+    for r in routes:
+        if isinstance(action, str) and r["action"] == action:
+            return r
+    return None
+
+
+def _snake(payload):
+    from ocpp.charge_point import camel_to_snake_case
+    return camel_to_snake_case(payload)
+
+
+def _camel(payload):
+    from ocpp.charge_point import snake_to_camel_case
+    return snake_to_camel_case(payload)
+
+
+def c05(kind, version, routes, raw, obs, info=None):
+    """Inbound half: a violating CALL never reaches the handler and gets the mapped code; a valid
+    one does reach it; an invalid handler result is replaced by a CALLERROR with the mapped code."""
+    bad = []
+    info = info or {}
+    call = parse_call(raw)
+    if call is None:
+        return bad
+    handlers = [e for e in obs if e[0] == "handler"]
+    w = sends(obs)
+    if kind in ("bad-req", "bad-req-other-skips"):
+        allowed = sorted({code_for(kw) for (_, kw) in info.get("tags", [])})
+        if handlers:
+            bad.append(("handler-ran:%s:%s:%s" % (version, call[1], json.dumps(info.get("tags"))),
+                        "the handler ran for a %s CALL violating %s" % (call[1], info.get("tags"))))
+        if len(w) == 1 and isinstance(w[0], list) and w[0][0] == 4:
+            if w[0][2] not in allowed:
+                bad.append(("code:%s:%s:%s" % (version, call[1], json.dumps(info.get("tags"))),
+                            "violation of %s answered with %s, expected one of %s" % (info.get("tags"), w[0][2], allowed)))
+        elif len(w) == 1:
+            bad.append(("accepted:%s:%s:%s" % (version, call[1], json.dumps(info.get("tags"))),
+                        "a %s CALL violating %s was answered with a CALLRESULT" % (call[1], info.get("tags"))))
+    elif kind in ("ok", "explicit", "raise-ocpp", "raise-other", "bad-res"):
+        if not handlers:
+            bad.append(("handler-missing:%s:%s:%s" % (kind, version, call[1]),
+                        "the handler did not run for a schema-valid %s CALL" % (call[1],)))
+        if kind == "bad-res":
+            allowed = sorted({code_for(kw) for (_, kw) in info.get("tags", [])})
+            if not (len(w) == 1 and isinstance(w[0], list) and w[0][0] == 4 and w[0][2] in allowed):
+                bad.append(("bad-result:%s:%s:%s" % (version, call[1], json.dumps(info.get("tags"))),
+                            "a handler result violating %s led to %r, expected a CALLERROR with one of %s" % (
+                                info.get("tags"), w[:1], allowed)))
+    return bad
+
+
+def c07(kind, version, routes, raw, obs, info=None):
+    bad = []
+    call = parse_call(raw)
+    if call is None or kind not in ("ok", "explicit", "raise-ocpp", "raise-other", "bad-res", "skip", "id", "corpus",
+                                    "send-fails"):
+        return bad
+    uid, action, payload = call
+    r = _route_for(routes, action)
+    if r is None or not r.get("on") or not isinstance(payload, dict):
+        return bad
+    hs = [e for e in obs if e[0] == "handler"]
+    tag = "%s:%s:%s" % (kind, version, action)
+    if len(hs) != 1:
+        bad.append(("handler-count:%d:%s" % (len(hs), tag), "the handler of %s ran %d times" % (action, len(hs))))
+        return bad
+    h = hs[0]
+    if h[1] != r["on"]["name"]:
+        bad.append(("wrong-handler:" + tag, "handler %s ran for action %s (registered: %s)" % (h[1], action, r["on"]["name"])))
+    want = _snake(payload)
+    if not same_value(h[2], want):
+        bad.append(("kwargs:" + tag, "handler keywords %r differ from the payload %r" % (h[2], want)))
+    declared = r["on"]["sig"]["uid"]
+    if declared != h[3][0] or (declared and jkey(h[3][1]) != jkey(uid)):
+        bad.append(("uid:" + tag, "call_unique_id passed=%r (declared=%r, id=%r)" % (h[3], declared, uid)))
+    afters = [e for e in obs if e[0] == "after"]
+    order = [e[0] for e in obs if e[0] in ("handler", "send", "after")]
+    w = sends(obs)
+    replied_ok = len(w) == 1 and w[0][0] == 3
+    if r.get("after") and replied_ok:
+        if len(afters) != 1:
+            bad.append(("after-count:%d:%s" % (len(afters), tag), "the after-hook ran %d times" % len(afters)))
+        else:
+            a = afters[0]
+            if order != ["handler", "send", "after"]:
+                bad.append(("after-order:" + tag, "order of handler/reply/hook was %r" % (order,)))
+            if a[1] != r["after"]["name"] or not same_value(a[2], want):
+                bad.append(("after-args:" + tag, "the after-hook got %r %r" % (a[1], a[2])))
+            d2 = r["after"]["sig"]["uid"]
+            if d2 != a[3][0] or (d2 and jkey(a[3][1]) != jkey(uid)):
+                bad.append(("after-uid:" + tag, "after-hook call_unique_id passed=%r (declared=%r)" % (a[3], d2)))
+    elif afters and not replied_ok:
+        bad.append(("after-without-reply:" + tag, "the after-hook ran although no CALLRESULT was written"))
+    elif afters and not r.get("after"):
+        bad.append(("after-spurious:" + tag, "an after-hook ran that is not registered for %s" % action))
+    return bad
+
+
+def c16(kind, version, routes, raw, obs, info=None):
+    bad = []
+    call = parse_call(raw)
+    if call is None:
+        return bad
+    uid, action, payload = call
+    r = _route_for(routes, action)
+    tag = "%s:%s:%s" % (kind, version, action)
+    hs = [e for e in obs if e[0] == "handler"]
+    w = sends(obs)
+    if kind == "skip" and r and r.get("skip") and isinstance(payload, dict):
+        if len(hs) != 1 or not same_value(hs[0][2], _snake(payload)):
+            bad.append(("skip-not-delivered:" + tag, "with validation skipped the payload was not delivered unchanged: %r" % (hs,)))
+        from ocpp.charge_point import remove_nones
+        out = r["on"]["out"]
+        if out[0] == "ret":
+            want = _camel(remove_nones(out[1]))
+            if not (len(w) == 1 and w[0][0] == 3 and same_value(w[0][2], want)):
+                bad.append(("skip-result-changed:" + tag, "with validation skipped the result %r was written as %r" % (want, w)))
+    if kind == "bad-req-other-skips":
+        if hs or not (len(w) == 1 and w[0][0] == 4):
+            bad.append(("skip-leaked:" + tag, "another route's skip flag exempted %s from validation" % action))
+    if kind == "bad-res" and r and not r.get("skip"):
+        if not (len(w) == 1 and w[0][0] == 4):
+            bad.append(("result-unvalidated:" + tag, "an invalid result of a validating route was written: %r" % (w,)))
+    return bad
+
+
+def c17(kind, version, routes, raw, obs, info=None):
+    bad = []
+    call = parse_call(raw)
+    if call is None or not kind.startswith("unhandled") and kind != "id-unhandled":
+        return bad
+    uid, action, payload = call
+    if _route_for(routes, action) is not None:
+        return bad
+    import importlib
+    enums = importlib.import_module("ocpp.%s.enums" % ("v16" if version == "1.6" else "v201"))
+    known = isinstance(action, str) and action in {m.value for m in enums.Action}
+    want = "NotImplemented" if known else "NotSupported"
+    w = sends(obs)
+    tag = "%s:%s" % (version, jkey(action)[:60])
+    if [e for e in obs if e[0] in ("handler", "after")]:
+        bad.append(("handler-ran:" + tag, "a handler ran for the unhandled action %r" % (action,)))
+    if not (len(w) == 1 and isinstance(w[0], list) and len(w[0]) == 5 and w[0][0] == 4 and w[0][2] == want):
+        bad.append(("code:" + tag, "unhandled action %r on %s answered with %r, expected CALLERROR %s" % (
+            action, version, w[:1], want)))
     return bad
